@@ -129,6 +129,9 @@ struct ViewFns {
     get_untracked: Box<dyn Fn() -> Locale>,
     set: Box<dyn Fn(Locale)>,
     set_untracked: Box<dyn Fn(Locale)>,
+    /// a memo over `get_locale()` created with the view and read untracked: it only follows the
+    /// context through the signal's notifications
+    memo: Box<dyn Fn() -> Locale>,
     /// (flavour, key choice) -> which key it is and a closure that renders it now
     accessor: Box<dyn Fn(Flavour, usize) -> (Key, Render)>,
     /// scope further (None when the view has no such subkeys)
@@ -161,6 +164,11 @@ macro_rules! common_fns {
             Box::new(move || $i18n.get_locale_untracked()) as Box<dyn Fn() -> Locale>,
             Box::new(move |l| $i18n.set_locale(l)) as Box<dyn Fn(Locale)>,
             Box::new(move |l| $i18n.set_locale_untracked(l)) as Box<dyn Fn(Locale)>,
+            {
+                // a subscribed, caching consumer: recomputed only when the locale signal notifies
+                let m = ArcMemo::new(move |_| $i18n.get_locale());
+                Box::new(move || m.get_untracked()) as Box<dyn Fn() -> Locale>
+            },
         )
     };
 }
@@ -168,13 +176,14 @@ macro_rules! common_fns {
 macro_rules! deep_view {
     ($e:expr) => {{
         let i18n = $e;
-        let (get, get_untracked, set, set_untracked) = common_fns!(i18n);
+        let (get, get_untracked, set, set_untracked, memo) = common_fns!(i18n);
         ViewFns {
             kind: "scope grp.deep",
             get,
             get_untracked,
             set,
             set_untracked,
+            memo,
             accessor: Box::new(move |fl, k| match k % 2 {
                 0 => flavours!(fl, i18n, Key::GrpDeepLeaf, [leaf]),
                 _ => flavours!(fl, i18n, Key::GrpDeepLeafv, [leafv], x = 42),
@@ -187,13 +196,14 @@ macro_rules! deep_view {
 macro_rules! other_view {
     ($e:expr) => {{
         let i18n = $e;
-        let (get, get_untracked, set, set_untracked) = common_fns!(i18n);
+        let (get, get_untracked, set, set_untracked, memo) = common_fns!(i18n);
         ViewFns {
             kind: "scope other",
             get,
             get_untracked,
             set,
             set_untracked,
+            memo,
             accessor: Box::new(move |fl, _| flavours!(fl, i18n, Key::OtherA, [a])),
             scope: Box::new(|_| None),
         }
@@ -203,13 +213,14 @@ macro_rules! other_view {
 macro_rules! grp_view {
     ($e:expr) => {{
         let i18n = $e;
-        let (get, get_untracked, set, set_untracked) = common_fns!(i18n);
+        let (get, get_untracked, set, set_untracked, memo) = common_fns!(i18n);
         ViewFns {
             kind: "scope grp",
             get,
             get_untracked,
             set,
             set_untracked,
+            memo,
             accessor: Box::new(move |fl, k| match k % 3 {
                 0 => flavours!(fl, i18n, Key::GrpTitle, [title]),
                 1 => flavours!(fl, i18n, Key::GrpDeepLeaf, [deep.leaf]),
@@ -221,13 +232,14 @@ macro_rules! grp_view {
 }
 
 fn root_view(i18n: I18nContext<Locale>) -> ViewFns {
-    let (get, get_untracked, set, set_untracked) = common_fns!(i18n);
+    let (get, get_untracked, set, set_untracked, memo) = common_fns!(i18n);
     ViewFns {
         kind: "context",
         get,
         get_untracked,
         set,
         set_untracked,
+        memo,
         accessor: Box::new(move |fl, k| match k % 6 {
             0 => flavours!(fl, i18n, Key::Hello, [hello]),
             1 => flavours!(fl, i18n, Key::Greet, [greet], name = "Bob"),
@@ -263,6 +275,9 @@ struct Node {
     owner: Owner,
     /// model: the locale cell of this context
     cell: Locale,
+    /// the last write of the cell was a notifying one (`set_locale`) or the cell was never written:
+    /// subscribed consumers must then show `cell` (after `set_locale_untracked` they may lag)
+    notified: bool,
     parent: Option<usize>,
     how: &'static str,
     /// keeps the provider's view (and with it its owner) alive
@@ -359,6 +374,14 @@ fn check_world(w: &World, s: &StepCtx) -> Result<u64, Failure> {
         if got != want {
             return Err(fail("get_locale_untracked", v.ctx, who("get_locale_untracked()"), loc_name(want).into(), loc_name(got).into()));
         }
+        // a subscribed memo follows every notifying write (it is read after every step, so it is always subscribed)
+        let got = (v.fns.memo)();
+        if w.nodes[v.ctx].notified {
+            obs += 1;
+            if got != want {
+                return Err(fail("subscribed-memo", v.ctx, who("Memo over get_locale(), read untracked"), loc_name(want).into(), loc_name(got).into()));
+            }
+        }
     }
     for (ai, a) in w.accessors.iter().enumerate() {
         let want = expected_text(w.nodes[a.ctx].cell, a.key);
@@ -409,7 +432,7 @@ fn run_history(ops: &[Op]) -> Result<(u64, Stats), Failure> {
         c
     });
     let mut w = World {
-        nodes: vec![Node { owner: root_owner, cell: Locale::default(), parent: None, how: "root", _keep: None }],
+        nodes: vec![Node { owner: root_owner, cell: Locale::default(), notified: true, parent: None, how: "root", _keep: None }],
         views: vec![View { ctx: 0, fns: root_view(root_ctx), made_at: -1 }],
         accessors: vec![],
     };
@@ -430,6 +453,7 @@ fn run_history(ops: &[Op]) -> Result<(u64, Stats), Failure> {
                         (w.views[vi].fns.set)(l);
                     }
                     w.nodes[c].cell = l;
+                    w.nodes[c].notified = !untracked;
                     stats.sets += 1;
                     let views_of_c = w.views.iter().filter(|v| v.ctx == c).count();
                     let scoped_of_c = w.views.iter().filter(|v| v.ctx == c && v.fns.kind != "context").count();
@@ -519,7 +543,7 @@ fn run_history(ops: &[Op]) -> Result<(u64, Stats), Failure> {
                             (owner, sub, None, cell, how_s)
                         }
                     };
-                    w.nodes.push(Node { owner, cell, parent: Some(p), how: how_s, _keep: keep });
+                    w.nodes.push(Node { owner, cell, notified: true, parent: Some(p), how: how_s, _keep: keep });
                     let c = w.nodes.len() - 1;
                     w.views.push(View { ctx: c, fns: root_view(sub), made_at: i as i64 });
                     stats.subcontexts += 1;
